@@ -20,7 +20,7 @@ TOKEN_RE = re.compile(r'''
   (?P<pp>\#[^\n]*) |
   (?P<str>"(?:\\.|[^"\\])*") | (?P<chr>'(?:\\.|[^'\\])*') |
   (?P<num>0[xX][0-9a-fA-F']+[uUlL]*|0[bB][01']+[uUlL]*|\d[\d']*(?:\.\d+)?[uUlLfF]*) |
-  (?P<id>[A-Za-z_]\w*) |
+  (?P<id>(?:@@)?[A-Za-z_]\w*) |
   (?P<op>->\*|<<=|>>=|\.\.\.|::|->|\+\+|--|<<|>>|<=|>=|==|!=|&&|\|\||\+=|-=|\*=|/=|%=|&=|\|=|\^=|[{}()\[\];,.<>+\-*/%&|^!~?:=])
 ''', re.X | re.S)
 
@@ -627,6 +627,11 @@ class Body:
                         self.fire('R8type')
                         continue
                     raise ExtractionBreak('std::%s is not supported' % nm)
+            if t.k == 'op' and t.t == '::':
+                pp_ = prev_sig(toks, i)
+                if pp_ is None or toks[pp_].k != 'id' or toks[pp_].t in ('return',):
+                    i += 1      # global scope resolution  ::f  ->  f
+                    continue
             if t.k == 'id' and t.t == 'nullptr':
                 out.append(T('id', 'NULL')); i += 1; continue
             if t.k == 'id' and t.t == 'constexpr':
@@ -796,6 +801,8 @@ class Body:
             type_end = name_i
         if toks[after].k != 'op' or toks[after].t not in ('=', ';', '(', '{', '[', ':', ','):
             return None
+        if toks[name_i].t.startswith('@@'):
+            return None     # already processed (range-for variable)
         tys = [toks[k] for k in range(s, type_end) if sig(toks[k])]
         tstr = norm_type(' '.join(x.t for x in tys))
         tstr = re.sub(r'\s*::\s*', '::', tstr)
@@ -899,6 +906,8 @@ class Body:
         out = []
         for i, t in enumerate(toks):
             if t.k == 'id':
+                if t.t in ('@@SIZEOF', '@@ELEM'):
+                    out.append(t); continue
                 if t.t.startswith('@@') and t.t[2:] and t.t[2:].isidentifier():
                     out.append(T('id', t.t[2:])); continue
                 p = prev_sig(toks, i)
@@ -1185,7 +1194,7 @@ def rewrite_views(text, views):
             elif out[k] == ')': d -= 1
             k += 1
         inner = out[s:k - 1]
-        out = out[:m.start()] + '(' + inner + ').size()' + out[k:]
+        out = out[:m.start()] + inner + '.size()' + out[k:]
     while True:
         m = re.search(r'@@ELEM\(', out)
         if not m: break
@@ -1340,6 +1349,21 @@ def extract_function(fn, unit, repo, filecache, contracts):
         body.fire('R15', len(lines))
     # views
     views = list(unit.get('views', [])) + list(fn.get('views', []))
+    def _vk(ct):
+        ct = ct.replace('const ', '').strip()
+        if ct.startswith('vec_'): return 'vec'
+        if ct == 'str': return 'str'
+        if ct.startswith('arr_'): return 'arr'
+        return None
+    for p_ in params:
+        k_ = _vk(p_['ctype'])
+        if k_: views.append(((r'\(\*%s\)' % p_['name']) if p_['is_ref'] else p_['name'], k_))
+    for ln, lt in ctx['locals'].items():
+        k_ = _vk(lt)
+        if k_: views.append(((r'\(\*%s\)' % ln) if ln in ctx['refs'] else ln, k_))
+    for mn, mt in (ctx['members'] or {}).items():
+        k_ = _vk(mt)
+        if k_ and cls and not static: views.append((r'self->%s' % mn, k_))
     text = rewrite_views(text, views)
     if '@@' in text:
         raise ExtractionBreak('unresolved marker in %s' % fn['cname'])
